@@ -1851,8 +1851,9 @@ class C11(fw.Prop):
             "input/output, two inputs, sum variants, row elements, arguments of an opaque type, sequence elements, "
             "signature vs type arguments, sibling nodes, nested body vs outer HUGR).  non-trivial = resolution changed "
             "the object and at least one opaque type or operation stayed opaque, or opaque types are nested at depth >= 2, "
-            "or the case is a chain of >= 2 containers; for a whole HUGR: an operation changed and (an operation inside a "
-            "function value changed or a custom operation stayed opaque)")
+            "or the case is a chain of >= 2 containers; for a whole HUGR: a node's operation changed and (a custom operation "
+            "of a node stayed opaque, or a function value holds an opaque operation the registry defines - which must "
+            "be left alone)")
     trusted = ["printers of harness/props/c11.py: hugr objects / pydantic dumps / hugr.model dataclass trees -> Gallina "
                "literals; model symbols are split into (extension, id) against the pairs occurring in the case",
                "hugr.model string/bytes forms need the absent native module: model export is compared as dataclass trees",
@@ -1917,8 +1918,10 @@ class C11(fw.Prop):
              "t": ["opaque", "nowhere", "U", [["seq", [["nat", 3], ["seq", [["type", t_in]]]]]], "A"]},
             {"kind": "hugr", "via": "loaded", "reg": [ext_a, ext_ops],
              "nodes": [{**ident(t_in), "args": [["seq", [["seq", [["type", t_in]]], ["seq", []]]]]}]},
-            # D30: the opaque operations inside the HUGR of a function-valued constant are not resolved (directly in the
-            # constant; inside a tuple / option / sum value; a function value inside a function value)
+            # function-valued constants are part of the frame: the opaque operations inside the HUGR of a function value
+            # (directly in the constant; inside a tuple / option / sum value; a function value inside a function value)
+            # are not operations of the HUGR being resolved and must be left exactly as they are, although the
+            # registry defines them (hugr-core descends into them; "D30" considered and rejected as out of scope)
             {"kind": "whole", "via": "loaded", "reg": [ext_a], "body": {"nodes": [{"op": "const", "val": ["fn", inner]}]}},
             {"kind": "whole", "via": "loaded", "reg": [ext_a],
              "body": {"nodes": [op_a, {"op": "const", "val": ["tuple", [["true"], ["some", [["fn", inner]]]]]}]}},
@@ -2234,9 +2237,11 @@ class C11(fw.Prop):
             return True
         if case["kind"] == "whole":
             pairs = whole_pairs(obs)
-            changed = [1 for a, b, d in pairs if a != b]
-            nested = [1 for a, b, d in pairs if a != b and d > 0]
-            kept = [1 for a, b, d in pairs if a[0] == "op" and a[1][0] == "custom" and a == b]
+            defined = {(e, n) for e, x in obs["reg"] for n, _ in x["ops"]}
+            changed = [1 for a, b, d in pairs if a != b and d == 0]
+            kept = [1 for a, b, d in pairs if a[0] == "op" and a[1][0] == "custom" and a == b and d == 0]
+            nested = [1 for a, b, d in pairs if d > 0 and a[0] == "op" and a[1][0] == "custom"
+                      and (a[1][1]["ext"], a[1][1]["name"]) in defined]
             return bool(changed) and bool(nested or kept)
         if case["kind"] == "hugr":
             changed = [o for o in obs["nodes"] if o["res"] != o["op"]]
@@ -2260,8 +2265,11 @@ class C11(fw.Prop):
             else:
                 for a, b, d in whole_pairs(obs):
                     is_def = a[0] == "op" and a[1][0] == "custom" and (a[1][1]["ext"], a[1][1]["name"]) in defined
-                    if is_def and b[0] == "op" and b[1][0] == "custom":
-                        parts.append("unresolved-nested" if d > 0 else "unresolved")
+                    if d > 0:
+                        if a != b:                  # inside the HUGR of a function value: part of the frame
+                            parts.append("function-value-changed")
+                    elif is_def and b[0] == "op" and b[1][0] == "custom":
+                        parts.append("unresolved")
                     elif not is_def and a[0] != "const" and a != b:
                         parts.append("touched")
             if obs["h2"] != obs["h1"]:
@@ -2394,7 +2402,7 @@ class C11(fw.Prop):
             if c["kind"] == "whole":
                 pairs = whole_pairs(o)
                 w = d.setdefault("whole", {"source": {}, "nodes": 0, "holes": 0, "function_value_depth": {}, "links": 0,
-                                           "order_links": 0, "resolved_nested": 0, "resolved_top": 0, "with_metadata": 0})
+                                           "order_links": 0, "changed_inside_function_values": 0, "resolved_top": 0, "with_metadata": 0})
                 src = "builder-program" if "seed" in c else "small-hugr-of-older-streams" if "twin_of" in c else "generated-body"
                 w["source"][src] = w["source"].get(src, 0) + 1
                 w["nodes"] += len(o["h0"]["nodes"])
@@ -2404,7 +2412,11 @@ class C11(fw.Prop):
                 w["with_metadata"] += sum(1 for n in o["h0"]["nodes"] if n["md"])
                 fd = str(max([dd for _, _, dd in pairs] + [0]))
                 w["function_value_depth"][fd] = w["function_value_depth"].get(fd, 0) + 1
-                w["resolved_nested"] += sum(1 for a, b, dd in pairs if a != b and dd > 0 and a[0] == "op")
+                defined = {(e, n) for e, x in o["reg"] for n, _ in x["ops"]}
+                w["changed_inside_function_values"] += sum(1 for a, b, dd in pairs if a != b and dd > 0)     # expected 0: frame
+                w["defined_ops_inside_function_values"] = w.get("defined_ops_inside_function_values", 0) + sum(
+                    1 for a, b, dd in pairs if dd > 0 and a[0] == "op" and a[1][0] == "custom"
+                    and (a[1][1]["ext"], a[1][1]["name"]) in defined)
                 w["resolved_top"] += sum(1 for a, b, dd in pairs if a != b and dd == 0 and a[0] == "op")
                 d["changed"] += o["h0"] != o["h1"]
                 nd = str(nest_depth([a for a, _, _ in pairs]))
